@@ -311,10 +311,33 @@ class Ctx:
                             okall = False
                             self.tie_break("proof", t, "depends on a non-allow-listed axiom or an "
                                            "unproved section hypothesis: " + n)
+        if okall and self.tier == "thorough" and not self.replay:
+            # independent re-check of the compiled cone (and everything it depends on) with coqchk
+            rc, out = sh("timeout 1500 coqchk -o -silent -Q . V %s" % mod, cwd=COQ, timeout=1530)
+            m = re.search(r"\* Axioms:(.*?)\n\s*\n\* Constants/Inductives relying on type-in-type:(.*?)\n", out, flags=re.S)
+            summary = re.sub(r"\s+", " ", out[out.find("CONTEXT SUMMARY"):])[:1500] if "CONTEXT SUMMARY" in out else out[-800:]
+            self.cov["coqchk"] = summary
+            if rc != 0 or "CONTEXT SUMMARY" not in out:
+                okall = False
+                self.tie_break("proof", "coqchk " + mod, "coqchk did not accept the compiled development: " + out[-1500:])
+            else:
+                for sect in ("type-in-type", "unsafe (co)fixpoints", "positivity is assumed"):
+                    mm = re.search(re.escape(sect) + r":\s*(.*?)\n", out)
+                    if mm and "<none>" not in mm.group(1):
+                        okall = False
+                        self.tie_break("proof", "coqchk " + mod, "coqchk reports %s: %s" % (sect, mm.group(1)))
+                ax = re.search(r"\* Axioms:\s*(.*?)\n\s*\n\*", out, flags=re.S)
+                if ax and "<none>" not in ax.group(1):
+                    for name in re.findall(r"([\w.']+)", ax.group(1)):
+                        if name.split(".")[-1] not in AXIOM_ALLOW and name not in AXIOM_ALLOW:
+                            okall = False
+                            self.tie_break("proof", "coqchk " + mod, "coqchk lists a non-allow-listed axiom: " + name)
         self.cov["discharged"] = n_obl if okall else 0
         tb = ["Coq 8.16.1 kernel (coqc, vm_compute used for closed computations; no native_compute)",
               "Print Assumptions per pinned theorem: " + "; ".join(
                   "%s: %s" % kv for kv in sorted(self.cov["theorems"].items()))]
+        if self.cov.get("coqchk"):
+            tb.append("coqchk -o (independent checker) on the property's compiled cone: " + self.cov["coqchk"][:400])
         tb += list(extra_trusted)
         self.cov["trusted_base"] = tb
         return okall
